@@ -19,6 +19,8 @@ CLAIMS = {
  'C10': ('layout validation and channel lookup vs a direct specification, ambisonics channel-count rule, demixing x mixing == gain-scaled identity for the built-in orders (exact integer arithmetic, symbolic cell), saturating 16-bit projection accumulation, and decoder channel routing with stubbed stream decoders; encoder-side layouts/concatenation not claimed', '2/C10'),
  'C12': ('state bytes after init are independent of previous memory contents and of the object address (whole decoder object; encoder per sub-state), init and reset stay inside the size-query bytes, and OPUS_RESET_STATE from an arbitrary signal history with arbitrary settings leaves every byte equal to a freshly initialised object with those settings (decided per sub-state and composed through pointer-recording stubs); determinism of later encode/decode calls follows only because the codec has no other mutable storage and is not itself executed', '2/C12'),
  'C19': ('soft clipper: in-range input with cleared memory is bit-for-bit untouched, degenerate arguments touch nothing, and for excursions whose samples all saturate at +-2 (any larger magnitude incl. infinities) the output stays in [-1,1] without sign flips, all for frames of 1-4 samples; general excursions, channel independence and the decoder gain law gave no solver verdict and are not claimed', '2/C19'),
+ 'C05': ('packetisation glue of the encoder (opus_encode_native, frame encoder stubbed) from any state satisfying the written invariant: result in [1,max_data_bytes] or a documented error, no store at or behind data[max_data_bytes], CBR budget == round(bitrate x duration / 8) clipped to [1,min(max,1276)] incl. AUTO/MAX, padding to the CBR size for low-budget and repacketised packets, two bytes always suffice; that the real frame coders keep to their budget and constrained-VBR averages are not claimed', '2/C05 and 7.2'),
+ 'C15': ('the SSE4.1 LTP codebook search silk_VQ_WMat_EC_sse4_1 (real source over plain-C lane models validated against the host CPU) returns bit-identical results to silk_VQ_WMat_EC_c for every int32 input, per real codebook row; all other dispatched kernels are outside the claim', '2/C15 and 7.2'),
  'C08': ('range coder round trips, accounting invariant (inductive) and termination lemma decided over all parameters within small buffer/sequence bounds', '2/C08'),
 }
 NA = {
@@ -52,7 +54,7 @@ def main():
              engines=[dict(name='cbmc', path='run.py', serves_properties=[c['property_id'] for c in checks],
                            kind_free_text='CBMC 6.11.0 bounded model checker (goto-cc front end on the real sources, kissat SAT back end), driver run.py')],
              checks=checks, not_applicable=na,
-             notes='Two genuine defects were found and repaired in /repo with fix: commits (see known_findings.txt). Every claim is bounded; bounds and stubs are in DESIGN.md and in each evidence file.')
+             notes='Four genuine defects were found and repaired in /repo with fix: commits (see known_findings.txt). Every claim is bounded; bounds and stubs are in DESIGN.md and in each evidence file.')
     json.dump(m, open(os.path.join(V, 'MANIFEST.json'), 'w'), indent=1)
     print('checks:', [c['property_id'] for c in checks], 'n/a:', [n['property_id'] for n in na])
 if __name__ == '__main__':
